@@ -2,6 +2,8 @@ package main
 
 import (
 	"fmt"
+	"go/constant"
+	"go/types"
 	"sort"
 	"strings"
 
@@ -127,4 +129,223 @@ func (g *Graph) PrecedeSince(reset, x, y NodePred) []*Node {
 	src := []*Node{g.Entry}
 	src = append(src, g.Select(reset)...)
 	return g.PathAvoiding(src, y, x)
+}
+
+// ---------------------------------------------------------------------------------------------
+// ER primitive: enum-conditioned reachability.
+
+// enumConsts lists the constants of a named integer type in a package: name -> value.
+func enumConsts(p *Prog, pkgPath, typeName string) map[string]int64 {
+	out := map[string]int64{}
+	tp := p.TypesPkg(pkgPath)
+	if tp == nil {
+		return out
+	}
+	for _, name := range tp.Scope().Names() {
+		c, ok := tp.Scope().Lookup(name).(*types.Const)
+		if !ok {
+			continue
+		}
+		nt, ok := c.Type().(*types.Named)
+		if !ok || nt.Obj().Name() != typeName {
+			continue
+		}
+		if v, ok := constant.Int64Val(c.Val()); ok {
+			out[name] = v
+		}
+	}
+	return out
+}
+
+// EnumReach: for each constant c of the enum, is a target reachable from `from` when the edges
+// contradicted by V == c are pruned (V = any term satisfying isV)? Conditions on other values
+// stay unknown. Returns the set of constant names for which a target is reachable.
+func (g *Graph) EnumReach(from []*Node, target NodePred, isV func(*Term) bool, consts map[string]int64, alsoAvoid NodePred) map[string][]*Node {
+	out := map[string][]*Node{}
+	// precompute the comparison edges
+	type cmp struct {
+		n   *Node
+		k   int64
+		eq  bool // cond is V == k (true) or V != k (false)
+		pol bool
+	}
+	var cmps []cmp
+	for _, n := range g.Nodes {
+		if n.Kind != NTrue && n.Kind != NFalse {
+			continue
+		}
+		t, pol := CondTerm(n)
+		t, pol = normFact(t, pol)
+		if t.Op != "bin" || (t.Name != "==" && t.Name != "!=") {
+			continue
+		}
+		var v, k *Term
+		if isV(t.Args[0].unconv()) {
+			v, k = t.Args[0], t.Args[1]
+		} else if isV(t.Args[1].unconv()) {
+			v, k = t.Args[1], t.Args[0]
+		}
+		if v == nil || k.unconv().Op != "const" {
+			continue
+		}
+		var kv int64
+		if _, err := fmt.Sscanf(k.unconv().Name, "%d", &kv); err != nil {
+			continue
+		}
+		cmps = append(cmps, cmp{n, kv, t.Name == "==", pol})
+	}
+	for name, c := range consts {
+		dead := map[*Node]bool{}
+		for _, x := range cmps {
+			truth := (c == x.k) == x.eq
+			if truth != x.pol {
+				dead[x.n] = true
+			}
+		}
+		avoid := func(n *Node) bool { return dead[n] || (alsoAvoid != nil && alsoAvoid(n)) }
+		if path := g.PathAvoiding(from, target, avoid); path != nil {
+			out[name] = path
+		}
+	}
+	return out
+}
+
+// loopHeaderOf: the innermost natural-loop header block containing b (nil if none).
+func loopHeaderOf(b *ssa.BasicBlock) *ssa.BasicBlock {
+	for h := b; h != nil; h = h.Idom() {
+		for _, p := range h.Preds {
+			if h.Dominates(p) && blockReaches(b, p, h) {
+				return h
+			}
+		}
+	}
+	return nil
+}
+
+// blockReaches: from reaches to through blocks dominated by header.
+func blockReaches(from, to, header *ssa.BasicBlock) bool {
+	seen := map[*ssa.BasicBlock]bool{from: true}
+	q := []*ssa.BasicBlock{from}
+	for len(q) > 0 {
+		x := q[0]
+		q = q[1:]
+		if x == to {
+			return true
+		}
+		for _, s := range x.Succs {
+			if !seen[s] && header.Dominates(s) && s != header {
+				seen[s] = true
+				q = append(q, s)
+			}
+		}
+	}
+	return false
+}
+
+// headNodes: the ECFG head nodes of a block in the root context.
+func (g *Graph) headNode(ctx *Ctx, b *ssa.BasicBlock) *Node {
+	if m := g.heads[ctx]; m != nil {
+		return m[b]
+	}
+	return nil
+}
+
+// atomicWriters: call nodes of sync/atomic mutators whose receiver is the named field.
+var atomicMutators = map[string]bool{"Store": true, "CompareAndSwap": true, "Swap": true, "Add": true, "And": true, "Or": true}
+
+func isAtomicMutatorOn(n *Node, field string) (method string, ok bool) {
+	cn := CallName(n)
+	if !strings.HasPrefix(cn, "(*sync/atomic.") {
+		return "", false
+	}
+	m := cn[strings.LastIndex(cn, ".")+1:]
+	if !atomicMutators[m] {
+		return "", false
+	}
+	r := RecvTerm(n)
+	if r == nil || r.Op != "field" || r.Name != field {
+		return "", false
+	}
+	return m, true
+}
+
+// ctxDoneCase: true edges of select cases receiving from a context's Done() channel.
+func ctxDoneEdges(g *Graph) []*Node {
+	return selectCaseEdges(g, func(t *Term) bool {
+		return t.Op == "invoke" && t.Name == "(context.Context).Done"
+	})
+}
+
+// flattenPhi returns the non-cyclic leaves of nested phi terms.
+func flattenPhi(t *Term) []*Term {
+	if t.Op != "phi" {
+		return []*Term{t}
+	}
+	var out []*Term
+	for _, a := range t.Args {
+		out = append(out, flattenPhi(a)...)
+	}
+	return out
+}
+
+// constString returns the value of a package-level string constant.
+func constString(p *Prog, pkgPath, name string) (string, bool) {
+	tp := p.TypesPkg(pkgPath)
+	if tp == nil {
+		return "", false
+	}
+	c, ok := tp.Scope().Lookup(name).(*types.Const)
+	if !ok || c.Val().Kind() != constant.String {
+		return "", false
+	}
+	return constant.StringVal(c.Val()), true
+}
+
+// termIsConstString: the term is the string constant with the given value.
+func termIsConstString(t *Term, val string) bool {
+	t = t.unconv()
+	return t.Op == "const" && t.Name == fmt.Sprintf("%q", val)
+}
+
+// allocInit: for a term rooted at a local allocation initialised by one whole store, the term of
+// the stored value (nil otherwise).
+func allocInit(root *Term) *Term {
+	if root == nil || root.Op != "alloc" {
+		return nil
+	}
+	al, ok := root.V.(*ssa.Alloc)
+	if !ok {
+		return nil
+	}
+	var whole []ssa.Value
+	for _, r := range *al.Referrers() {
+		if st, ok := r.(*ssa.Store); ok && st.Addr == al {
+			whole = append(whole, st.Val)
+		}
+	}
+	if len(whole) != 1 {
+		return nil
+	}
+	return TermOf(whole[0], root.Ctx)
+}
+
+// rootOf strips field/index selectors.
+func rootOf(t *Term) *Term {
+	for t != nil && (t.Op == "field" || t.Op == "index") && len(t.Args) > 0 {
+		t = t.Args[0]
+	}
+	return t
+}
+
+// GenericReps: one representative body per generic function name (instantiations share their
+// shape): the functions of the package whose genericName equals name, deduplicated.
+func (p *Prog) GenericReps(name string) []*ssa.Function {
+	var out []*ssa.Function
+	for _, fn := range p.Funcs {
+		if fn.Parent() == nil && genericName(fn.String()) == name {
+			out = append(out, fn)
+			break
+		}
+	}
+	return out
 }
